@@ -836,6 +836,25 @@ def _loop_total(fi, name, raw, sn):
         if not a0.args or not (K.names_in(a0.args[0]) & tnames):
             return False, "value_type.clean is not applied to the item itself"
         return True, "loop over every item of `%s`" % raw
+    # a private copy filled in place: name = list(raw); for i, item in enumerate(name | raw): name[i] = value_type.clean(item, ...)
+    defs = [n for n in own_nodes(fi.node) if isinstance(n, ast.Assign) and any(isinstance(t, ast.Name) and t.id == name for t in n.targets)]
+    if len(defs) == 1 and isinstance(defs[0].value, ast.Call) and K.src(defs[0].value.func) == "list" and len(defs[0].value.args) == 1 and isinstance(defs[0].value.args[0], ast.Name) and defs[0].value.args[0].id == raw:
+        for lp in loops:
+            it = lp.iter
+            if not (isinstance(it, ast.Call) and K.src(it.func) == "enumerate" and len(it.args) == 1 and isinstance(it.args[0], ast.Name) and it.args[0].id in (name, raw)
+                    and isinstance(lp.target, ast.Tuple) and len(lp.target.elts) == 2 and all(isinstance(x, ast.Name) for x in lp.target.elts)):
+                continue
+            ix, item = lp.target.elts[0].id, lp.target.elts[1].id
+            last = lp.body[-1]
+            early = any(isinstance(x, (ast.Continue, ast.Break, ast.Return)) for st in lp.body[:-1] for x in ast.walk(st))
+            if not (isinstance(last, ast.Assign) and len(last.targets) == 1 and isinstance(last.targets[0], ast.Subscript) and isinstance(last.targets[0].value, ast.Name) and last.targets[0].value.id == name
+                    and isinstance(last.targets[0].slice, ast.Name) and last.targets[0].slice.id == ix) or early:
+                continue
+            if not _is_value_type_clean(last.value, sn):
+                return False, "the stored value is not value_type.clean(item)"
+            if not last.value.args or item not in K.names_in(last.value.args[0]):
+                return False, "value_type.clean is not applied to the item itself"
+            return True, "every item of a private copy of `%s` is replaced by its cleaned value" % raw
     return None, "returned name `%s` is not built by a recognised loop" % name
 
 
